@@ -269,6 +269,9 @@ def uninstall(fu, saved):
         fu.open = saved[1]
 
 
+FOREIGN_PART = b'someone else is writing this part file'
+
+
 def do_save(fu, scn, dest):
     """The client code: one atomic save as a user would write it."""
     chunks = new_content(scn)
@@ -294,10 +297,14 @@ def do_save(fu, scn, dest):
                 raise BODY_EXC['body-error']('first attempt fails')
         except BODY_EXC['body-error']:
             pass
-    elif scn.get('reuse') == 'after-success':
+    elif scn.get('reuse') in ('after-success', 'after-success-foreign-part'):
         with saver as fo:
             for ch in chunks:
                 fo.write(ch)
+        if scn['reuse'] == 'after-success-foreign-part':
+            # between the two uses of the saver somebody else starts a save of its own to the same destination
+            with open(saver.part_path if hasattr(saver, 'part_path') else dest + '.part', 'wb') as f:
+                f.write(FOREIGN_PART)
     with saver as fo:
         for i, ch in enumerate(chunks):
             if scn.get('raise_at') == i:
